@@ -1,5 +1,6 @@
 import Irismod.Props.C13_Htlc
 import Irismod.Props.C03
+import Irismod.Proofs.HtlcMonitor
 open Irismod Irismod.Sdk Irismod.Htlc Irismod.Spec.C03 Irismod.Props.C13Htlc Irismod.Props.C03
 #print axioms beginBlock_total
 #print axioms beginBlock_never_panics
@@ -7,5 +8,8 @@ open Irismod Irismod.Sdk Irismod.Htlc Irismod.Spec.C03 Irismod.Props.C13Htlc Iri
 #print axioms beginBlock_exactly_once
 #print axioms no_stale_entry
 #print axioms queue_hygiene
+-- monitor soundness: the clauses drv-htlc evaluates hold on every model step (Proofs/HtlcMonitor.lean)
+#print axioms Irismod.Proofs.HtlcMonitor.monitorC13_sound
+#print axioms Irismod.Proofs.HtlcMonitor.resetC03_sound
 -- non-vacuity: in the demo history two contracts fall due in the same block (height 61) and are both refunded
 #eval s!"nonvacuous {Demo.st Demo.plainId == some .refunded && Demo.st Demo.outId == some .refunded && Demo.final.queue.isEmpty}"
